@@ -9,7 +9,17 @@
    granted instant is a fact of the Go runtime's timers and scheduler.  The theorems
    bound the granted instants; the correspondence checks the real limiter's grants on
    synthetic clocks and the RateLimitWait call with a deadline on the wall clock.
-   Model assumption: durations below 2^63 ns (see C18_Model). *)
+   Model assumption: durations below 2^63 ns (see C18_Model).
+
+   Operator level (theorems C18_op_...): the queue workers of the operator's task-flow model (a local
+   copy of the model shared by C03/C04/C06/C17, see C18_Model) with
+   the limiter call of taskHandleHookRun in front of every HookRun task - first attempts
+   and retries of failed runs, every binding type, every queue, hooks sharing queues,
+   executions that are skipped after the call.  [run_lim cfg (init_lim hs) script] runs a
+   script of timed actions (Boot / Tick / KubeEv / Finish ok|fail / Stop); its ghost log
+   lists every limiter call and every execution start.  Waking up from a wait is not
+   modelled (a queue that waits stays waiting; see C18_Model): the bound is proved for
+   every script all the same, the correspondence stays inside that domain. *)
 From Verif Require Import Common C18_Model C18_Spec C18_Proofs.
 Open Scope Z_scope.
 
@@ -101,3 +111,82 @@ Example C18_P_rejects :
   wait_probe (create_rate_limiter (Some (mkSettings 10000000000 2))) 0 50000000 4
   = [true; true; false; false].
 Proof. repeat split; vm_compute; reflexivity. Qed.
+
+(* ---- operator level ---- *)
+
+(* every execution start of a hook - whatever the task, its failure count, its queue - is
+   one of the grants of the hook's own limiter over the sorted list of its request instants *)
+Theorem C18_op_starts_are_grants : forall cfg hs script h,
+  sortedb (map fst script) = true ->
+  let log := final_log cfg hs script in
+  sortedb (reqs_of h log) = true /\
+  acts_of h log = grants (create_rate_limiter (settings_of hs h)) (reqs_of h log) /\
+  Sub (starts_in h log) (somes (acts_of h log)).
+Proof. exact op_starts_are_grants. Qed.
+Print Assumptions C18_op_starts_are_grants.
+
+(* hence, for every configuration, every script (failing executions and their retries
+   included) and every hook with settings (I, B): any window of length T holds at most
+   B + T/I (rounded up) starts of the hook's executions *)
+Theorem C18_op_respects_limit : forall cfg hs script h I B,
+  settings_of hs h = Some (mkSettings I B) -> 0 < I -> 1 <= B -> sortedb (map fst script) = true ->
+  respects_limit I B (starts_in h (final_log cfg hs script)).
+Proof. exact op_respects_limit. Qed.
+Print Assumptions C18_op_respects_limit.
+
+(* a hook without settings is never throttled: each of its limiter calls returns at once *)
+Theorem C18_op_not_throttled : forall cfg hs script h,
+  settings_of hs h = None -> ~ In h (throttled_in (final_log cfg hs script)).
+Proof. exact op_not_throttled. Qed.
+Print Assumptions C18_op_not_throttled.
+
+(* the decidable predicate used on the implementation's observations holds of the model *)
+Theorem C18_op_P_holds : forall cfg hs script,
+  sortedb (map fst script) = true ->
+  let log := final_log cfg hs script in
+  P_op hs (starts_all log) (throttled_in log) = true.
+Proof. exact op_P_holds. Qed.
+Print Assumptions C18_op_P_holds.
+
+(* when no hook has a limit the workers are exactly those of the plain task-flow model
+   (the one of C03, C04, C06, C17, without the limiter call): nothing waits, same states *)
+Theorem C18_op_unlimited_is_plain_operator : forall cfg hs script,
+  (forall h, b_limit (init_limiters hs h) = None) ->
+  l_op (run_lim cfg (init_lim hs) script) = exec cfg (map snd script) init /\
+  l_waiting (run_lim cfg (init_lim hs) script) = [].
+Proof. exact op_unlimited_is_plain_operator. Qed.
+Print Assumptions C18_op_unlimited_is_plain_operator.
+
+(* non-vacuity: hook 1 (I = 1 min, B = 1) with a schedule binding in queue 1 shares that
+   queue with hook 2 (no settings).  Two ticks; the first execution of hook 1 fails: its
+   retry needs a second token and waits until 1 ms + 1 min; both tasks of hook 2 wait behind it (4 tasks queued).
+   One start, queue 1 waiting, hook 1 (and only hook 1) throttled. *)
+Example C18_op_hyp_met :
+  let cfg := [mkHook 1 false None [] [mkSb 1 1 0 false 1]; mkHook 2 false None [] [mkSb 2 1 0 false 1]] in
+  let hs := [(1%N, Some (mkSettings 60000000000 1)); (2%N, None)] in
+  let script := [(0, Boot); (1000000, Tick 1); (2000000, Tick 1); (3000000, Finish 1 false)] in
+  let ls := run_lim cfg (init_lim hs) script in
+  sortedb (map fst script) = true /\
+  settings_of hs 1 = Some (mkSettings 60000000000 1) /\ settings_of hs 2 = None /\
+  starts_all (l_log ls) = [(1%N, 1000000)] /\
+  reqs_of 1 (l_log ls) = [1000000; 3000000] /\
+  acts_of 1 (l_log ls) = [Some 1000000; Some 60001000000] /\
+  l_waiting ls = [(1%N, Some 60001000000)] /\
+  throttled_in (l_log ls) = [1%N] /\
+  l_overrun ls = false /\
+  map (fun q => (q_name q, length (q_items q), is_running q)) (queues (l_op ls)) = [(0%N, 0%nat, false); (1%N, 4%nat, false)].
+Proof. cbv zeta. repeat split; vm_compute; reflexivity. Qed.
+
+(* the hypothesis of C18_op_unlimited_is_plain_operator is met by hooks without settings and by
+   executionMinInterval 0; P_op is not vacuous: a third start within the minute is rejected,
+   and so is a hook without settings that was seen waiting *)
+Example C18_op_P_rejects :
+  (forall h, b_limit (init_limiters [(1%N, None); (2%N, Some (mkSettings 0 3))] h) = None) /\
+  P_op [(1%N, Some (mkSettings 60000000000 1))] [(1%N, 1000000); (1%N, 2000000); (1%N, 3000000)] [] = false /\
+  P_op [(1%N, Some (mkSettings 60000000000 1))] [(1%N, 1000000); (1%N, 2000000)] [1%N] = true /\
+  P_op [(1%N, Some (mkSettings 60000000000 1)); (2%N, None)] [(2%N, 1); (2%N, 2); (2%N, 3); (1%N, 4)] [2%N] = false.
+Proof.
+  split; [|repeat split; vm_compute; reflexivity].
+  intros h. unfold init_limiters, settings_of. cbn [find fst snd].
+  destruct (N.eqb 1 h); [reflexivity|]. destruct (N.eqb 2 h); reflexivity.
+Qed.
